@@ -89,25 +89,30 @@ Proof. repeat split; reflexivity. Qed.
 (* ------------------------------------------------------------------------------------------ *)
 (** * the unguarded statement is false for the current code *)
 
-(** (1) a schema definition that leaves `mutation` out while a type is called Mutation: the JSON route still
-        resolves mutation operations (its root node is built-in, i.e. "implicit"), the SDL route does not *)
+(** (regression, formerly a refutation) a schema definition that leaves `mutation` out while a type is called
+    Mutation: before the fix "a schema loaded from introspection JSON has explicit root types" the JSON route resolved
+    mutation operations to that type (its root node is built-in) while the SDL route did not.  The model satisfies the
+    guard now and both routes agree that the operation kind is unavailable. *)
 Definition shadow_model : smodel :=
   mkModel None
     [ mkMType (s "Query") None (MObject [] [mkMField (s "a") None [] (GNamed (s "Int")) None]);
       mkMType (s "Mutation") None (MObject [] [mkMField (s "a") None [] (GNamed (s "Int")) None]) ]
     [] (s "Query") None None true.
 
-Lemma shadow_root_refuted :
-  exists M D Sj,
-    dirs_ok M = true /\ implicit_roots_ok M = true /\ roots_ok M = true /\ desc_ok M = true
-    /\ doc_equiv D (sdl_doc M) /\ parsed_positions D
-    /\ json_route (introspect Full false M) = Ok Sj
-    /\ root_type Sj Mutation = Some (s "Mutation")
+Example shadow_model_ok : model_ok shadow_model = true.
+Proof. reflexivity. Qed.
+
+Lemma shadow_root_agrees :
+  exists D Sj,
+    doc_equiv D (sdl_doc shadow_model) /\ parsed_positions D
+    /\ json_route (introspect Full false shadow_model) = Ok Sj
+    /\ get_type Sj (s "Mutation") <> None
+    /\ root_type Sj Mutation = None
     /\ root_type (ast_to_type_system D) Mutation = None.
 Proof.
-  exists shadow_model, (reposition (sdl_doc shadow_model)), (json_schema (listed_types false shadow_model) shadow_model).
+  exists (reposition (sdl_doc shadow_model)), (json_schema (listed_types false shadow_model) shadow_model).
   destruct (doc_equiv_reposition (sdl_doc shadow_model)) as [He Hp].
-  repeat match goal with |- _ /\ _ => split end; try assumption; try apply json_route_introspect_of; try reflexivity.
+  repeat match goal with |- _ /\ _ => split end; try assumption; try apply json_route_introspect_of; try reflexivity; discriminate.
 Qed.
 
 (** (2) a built-in scalar the schema does not reference exists on the SDL route only *)
